@@ -7,6 +7,7 @@ import time
 
 ROOT = os.path.dirname(os.path.dirname(os.path.abspath(__file__)))
 EVIDENCE_DIR = os.path.join(ROOT, 'evidence')
+TOOL_THREADS_CAP = 'the audited code started threads of its own: they are not scheduled, schedule exploration is not exhaustive for this tree'
 # evidence describes runs against /repo itself: a run pointed at a scratch copy (seed evaluation, regression over kept seeds) writes its
 # file elsewhere, so that it can never replace what the registered commands produced
 if os.path.realpath(os.environ.get('VERIF_REPO', '/repo')) != os.path.realpath('/repo'):
@@ -52,6 +53,8 @@ class Stats:
         environment event log.  detail='full' takes every prefix, 'conn' (default) the prefixes ending at connection-level events
         (resolve, connect, established, accept, close) plus the final one, 'light' only the final one.  Transitions = events executed."""
         self.evaluations += 1
+        if world is not None and getattr(world, 'tool_threads', 0) and TOOL_THREADS_CAP not in self.caps:
+            self.caps.append(TOOL_THREADS_CAP)
         if world is not None:
             # builtin hash: identical across the forked workers of one run (same hash seed), and fast
             hv = hash(('root', repr(root)))
@@ -141,6 +144,8 @@ def finish(pid, tier, seed, stats, t0, rule, assumptions, exhaustive=True, trace
         d = vs[0]['detail']
         print('  detail: %s' % (d if isinstance(d, str) else json.dumps(d, default=repr))[:1500])
         reported += 1
+    if TOOL_THREADS_CAP in stats.caps:
+        print('LIMIT: property=%s %s' % (pid, TOOL_THREADS_CAP))
     for he in stats.harness_errors[:10]:
         print('HARNESS-ERROR: property=%s %s' % (pid, he))
     cov = {
@@ -154,7 +159,7 @@ def finish(pid, tier, seed, stats, t0, rule, assumptions, exhaustive=True, trace
         'exhaustive': bool(exhaustive and not stats.caps),
         'distinct_outcomes': len(stats.outcomes),
         'outcome_histogram': dict(collections.Counter({str(k): v for k, v in stats.outcomes.most_common(25)})),
-        'caps_hit': stats.caps,
+        'caps_hit': sorted(set(stats.caps)),
         'known_findings_seen': {sig: n for sig, (k, n) in known_hit.items()},
         'harness_errors': len(stats.harness_errors),
     }
